@@ -89,5 +89,78 @@ def _owner(repo, f, node):
     return f
 
 
+
+
+# ---------------------------------------------------------------- SIGN: homo2cart divides by the (signed) last coordinate
+
+from ..expr import inline_straight, returns_of, dump     # noqa: E402
+
+
+def _sign_kind(e, wd):
+    """'w' sign of the last coordinate is preserved | 'pos' non-negative | 'const' | '?'"""
+    if dump(e) == wd:
+        return 'w'
+    if isinstance(e, ast.Constant):
+        return 'const'
+    if isinstance(e, ast.UnaryOp) and isinstance(e.op, ast.USub):
+        k = _sign_kind(e.operand, wd)
+        return {'w': 'negw'}.get(k, k)
+    if isinstance(e, ast.Call):
+        d = dotted(e.func) or ''
+        if isinstance(e.func, ast.Attribute) and not d.startswith('torch.'):
+            b = _sign_kind(e.func.value, wd)
+            m = e.func.attr
+            if m in ('abs', 'square'):
+                return 'pos' if b in ('w', 'negw', 'pos') else '?'
+            if m in ('clamp', 'clamp_', 'clamp_min', 'clamp_min_'):
+                return b if b == 'pos' else ('?' if b in ('w', 'negw') else b)
+            if m in ('sign', 'sgn'):
+                return b
+            if m in ('clone', 'contiguous', 'unsqueeze', 'squeeze', 'to', 'float', 'double', 'detach'):
+                return b
+            return '?'
+        if d in ('pm', 'torch.sign', 'torch.sgn') and e.args:
+            return _sign_kind(e.args[0], wd)
+        if d in ('torch.abs',) and e.args:
+            return 'pos'
+        if d in ('torch.clamp', 'torch.clamp_min') and e.args:
+            b = _sign_kind(e.args[0], wd)
+            return b if b == 'pos' else '?'
+        if d in ('torch.where',) and len(e.args) == 3:
+            a, b = _sign_kind(e.args[1], wd), _sign_kind(e.args[2], wd)
+            return a if a == b else '?'
+        return '?'
+    if isinstance(e, ast.BinOp) and isinstance(e.op, (ast.Mult, ast.Div)):
+        a, b = _sign_kind(e.left, wd), _sign_kind(e.right, wd)
+        table = {('w', 'pos'): 'w', ('pos', 'w'): 'w', ('w', 'w'): 'pos', ('pos', 'pos'): 'pos', ('negw', 'pos'): 'negw', ('pos', 'negw'): 'negw',
+                 ('w', 'const'): 'w', ('const', 'w'): 'w', ('pos', 'const'): 'pos', ('const', 'pos'): 'pos', ('w', 'negw'): '?', ('negw', 'w'): '?'}
+        return table.get((a, b), '?')
+    return '?'
+
+
+def rule_sign(repo, tier):
+    res = RuleResult('C18.SIGN', 'homo2cart divides the leading coordinates by a quantity that keeps the sign of the last coordinate '
+                     '(protection against a zero denominator may only clamp its magnitude): points with negative homogeneous '
+                     'coordinate are not mirrored', floor=1)
+    f = repo.func(GEO, 'homo2cart')
+    pn = f.pos_params[0]
+    rets = returns_of(f.node)
+    if len(rets) != 1:
+        raise AnalysisError('C18.SIGN: homo2cart has %d returns' % len(rets))
+    v = inline_straight(f.node, upto=rets[0]).value(rets[0].value)
+    wd = dump(ast.parse('%s[..., -1:]' % pn, mode='eval').body)
+    if not (isinstance(v, ast.BinOp) and isinstance(v.op, ast.Div)):
+        raise AnalysisError('C18.SIGN: homo2cart no longer returns a quotient')
+    k = _sign_kind(v.right, wd)
+    res.inst({'function': f.fq, 'divisor': src(v.right)[:80], 'sign_kind': k}, f.fq)
+    if k in ('pos', 'const', 'negw'):
+        res.add(Finding('C18.SIGN', f, 'homo2cart divides by `%s`, which is %s: the sign of the last homogeneous coordinate is lost'
+                        % (src(v.right)[:70], {'pos': 'non-negative', 'const': 'constant', 'negw': 'sign-reversed'}[k]), node=rets[0],
+                        construct='divisor kind ' + k))
+    elif k == '?':
+        res.unresolved += 1
+    return res
+
+
 def rules(repo, tier):
-    return [rule_idx(repo, tier)]
+    return [rule_idx(repo, tier), rule_sign(repo, tier)]
